@@ -324,12 +324,47 @@ func runC11(c *Case) {
 				return
 			}
 			v, err := ro.Scalar("select s3db_version('" + rt + "')")
-			ro.Close()
 			if err != nil {
+				ro.Close()
 				fail("ro-version-error", err.Error())
 				return
 			}
 			got := parseVersionList(v)
+			// asked through this table for one member of its several versions, s3db_changes
+			// returns that member's rows, not the rows of the merged view
+			if len(got) >= 2 {
+				for _, n := range got {
+					var rec *vsnap
+					for j := range h.snaps {
+						if len(h.snaps[j].Names) == 1 && h.snaps[j].Names[0] == n {
+							rec = &h.snaps[j]
+						}
+					}
+					if rec == nil {
+						continue
+					}
+					ct := tname(c, "rochg")
+					if err := ro.Exec(fmt.Sprintf("create virtual table %s using s3db_changes (table='%s', from='[]', to='%s')", ct, rt, rec.Raw)); err != nil {
+						ro.Close()
+						fail("historic-version-unreadable:through-multi-version-table", fmt.Sprintf("s3db_changes(to=%s) through a read-only table showing %v: %v", rec.Raw, got, err))
+						return
+					}
+					rows, err := ro.Rows("select * from " + ct)
+					ro.Exec("drop table " + ct)
+					c.Count("members_reread_through_multi_version_table", 1)
+					if err != nil {
+						ro.Close()
+						fail("historic-version-unreadable:through-multi-version-table", fmt.Sprintf("s3db_changes(to=%s) through a read-only table showing %v: %v", rec.Raw, got, err))
+						return
+					}
+					if d := firstDiff(rec.Dump, sortedRows(rows)); d != "" {
+						ro.Close()
+						fail("historic-version-changed:through-multi-version-table", fmt.Sprintf("version %s read by s3db_changes through a read-only table that shows %v differs from what was recorded (recorded vs got): %s", rec.Raw, got, d))
+						return
+					}
+				}
+			}
+			ro.Close()
 			sort.Strings(got)
 			c.Count("readonly_version_lists", 1)
 			c.Distinct("unmerged_list_sizes", fmt.Sprint(len(cur)))
